@@ -33,6 +33,9 @@ type Profile struct {
 	DupSigners  bool
 	GovKinds    []string // which modules' parameters governance changes (default: all four)
 	PCheck      int      // percent of txs that are submitted to CheckTx only (mempool admission)
+	SlotRules   []int    // override of the storage-purchase slot rules
+	LockedActors bool    // registrations are preferably made by accounts that hold locked eFUND
+	PSameKind   int      // percent of follow-up messages in a multi-message tx that repeat the first message's kind, actor and target
 	Crashes     bool     // blocks carry restart points (C01)
 	GasSweep    bool     // some txs get a gas limit that runs out at an ante / message boundary
 	MultiPct    int      // percent of txs with several messages (default 10)
@@ -242,6 +245,9 @@ func GenOp(t *rapid.T, p *Profile, kind string, nAcc int) Op {
 		}
 	case WrkReg, BcnReg:
 		op.Str = strRule(t)
+		if p.LockedActors && uni(t, 3, "lockedActor") != 0 {
+			op.Rule = 1 // resolved at build time: an account with completed purchase orders, if any
+		}
 	case WrkRec:
 		op.Ref = genRef(t, p)
 		op.Rule = pick(t, []int{0, 0, 0, 0, 0, 0, 1, 2, 3, 3, 4, 5}, "hRule")
@@ -254,7 +260,11 @@ func GenOp(t *rapid.T, p *Profile, kind string, nAcc int) Op {
 		op.Str = strRule(t)
 	case WrkPur, BcnPur:
 		op.Ref = genRef(t, p)
-		op.Rule = pick(t, []int{0, 0, 0, 0, 1, 2, 3, 4, 5, 6}, "slotRule")
+		rules := []int{0, 0, 0, 0, 1, 2, 3, 4, 5, 6}
+		if len(p.SlotRules) > 0 {
+			rules = p.SlotRules
+		}
+		op.Rule = pick(t, rules, "slotRule")
 		op.N = pick(t, []uint64{0, 1, 2, 3, 7, 100}, "slotN")
 	case StrCreate:
 		op.Denom = pick(t, []int{0, 0, 1, 1, 2}, "sDenom")
@@ -312,7 +322,7 @@ func strRule(t *rapid.T) int {
 	if !oneIn(t, 4, "strPlain") {
 		return 0
 	}
-	return uniRange(t, 0, 215, "strRule")
+	return uniRange(t, 0, 1727, "strRule")
 }
 
 var denomsValid = []string{"nund", "nund", "nund", "atto", "stake", "abc", "ibc/27394FB092D2ECCD56123C74F36E4C1F926001CEADA9CA97EA622B25F41E5EB2"}
@@ -445,12 +455,25 @@ func GenScenario(t *rapid.T, p *Profile) *Scenario {
 			}
 			for j := 0; j < nops; j++ {
 				kind := pickKind(t, p.Weights)
+				if j > 0 && pct(t, p.PSameKind, "sameKind") {
+					// the same operation again on the same target by the same party (per-message accumulation paths)
+					op := GenOp(t, p, tx.Ops[0].Kind, nAcc)
+					op.Actor, op.Named, op.Ref, op.Peer, op.Upper = tx.Ops[0].Actor, tx.Ops[0].Named, tx.Ops[0].Ref, tx.Ops[0].Peer, tx.Ops[0].Upper
+					if oneIn(t, 3, "otherTarget") {
+						op.Ref = tx.Ops[0].Ref + 1
+					}
+					tx.Ops = append(tx.Ops, op)
+					continue
+				}
 				tx.Ops = append(tx.Ops, GenOp(t, p, kind, nAcc))
 			}
 			if pct(t, p.PCheck, "checkOnly") {
 				tx.Check = true
 				tx.Fee.Mode = pick(t, feeModes, "feeMode")
 				tx.Fee.Amt = pick(t, []string{"1", "1", "2", "1000"}, "feeDelta")
+				if tx.Fee.Mode == FeeSubset {
+					tx.Fee.Amt = pick(t, []string{"1", "2", "3", "4", "5", "6", "8", "9", "10", "12"}, "feeSubset")
+				}
 				tx.Fee.Extra = pick(t, []string{"1", "5", "1000"}, "feeExtra")
 			} else if p.PCheck == 0 {
 				tx.Fee.Mode = pick(t, feeModes, "feeMode")
